@@ -66,6 +66,36 @@ func LoadRepo(dir string, patterns []string) (*Program, error) {
 			p.Funcs[k] = fn
 		}
 	}
+	// promoted methods (a method a repo type gets from an embedded field): go/ssa builds a synthetic wrapper that
+	// forwards to the embedded value. It gets the key the method would have if it were written out, so that a
+	// contract can pin "this method IS the embedded one"; a hand-written method of that name replaces the wrapper.
+	for fn := range ssautil.AllFunctions(prog) {
+		if fn.Pkg != nil || fn.Parent() != nil || !strings.HasPrefix(fn.Synthetic, "wrapper for") || len(fn.Blocks) == 0 {
+			continue
+		}
+		recv := fn.Signature.Recv()
+		if recv == nil {
+			continue
+		}
+		t := recv.Type()
+		ptr := false
+		if pt, ok := t.(*types.Pointer); ok {
+			ptr = true
+			t = pt.Elem()
+		}
+		nt, ok := t.(*types.Named)
+		if !ok || nt.Obj().Pkg() == nil || !strings.HasPrefix(nt.Obj().Pkg().Path(), repoModule) {
+			continue
+		}
+		name := "(" + nt.Obj().Name() + ")." + fn.Name()
+		if ptr {
+			name = "(*" + nt.Obj().Name() + ")." + fn.Name()
+		}
+		k := relPkg(nt.Obj().Pkg().Path()) + "." + name
+		if _, exists := p.Funcs[k]; !exists {
+			p.Funcs[k] = fn
+		}
+	}
 	return p, nil
 }
 
